@@ -24,6 +24,7 @@ package main
 
 import (
 	"encoding/json"
+	"fmt"
 
 	"verif/harness/common"
 )
@@ -478,6 +479,36 @@ func c09JoinedTwins() []mCase {
 	return out
 }
 
+// c09LateReader: 20..40 EVENT / COUNT requests with ids of their own are submitted; then every child answers all
+// of them, in the order they were submitted, from a goroutine of its own, while the client does not read for a
+// while (mCase.Block).  Every request must get its merged reply, in the order of submission.
+func c09LateReader(r *common.Rand) mCase {
+	n := 2 + r.Intn(2)
+	c := mCase{N: n}
+	m := 20 + r.Intn(21)
+	type req struct {
+		count bool
+		id    string
+	}
+	var reqs []req
+	for j := 0; j < m; j++ {
+		q := req{count: r.Chance(30), id: fmt.Sprintf("q%d", j)}
+		reqs = append(reqs, q)
+		if q.count {
+			c.Steps = append(c.Steps, mStep{K: "count", Sub: q.id})
+		} else {
+			c.Steps = append(c.Steps, mStep{K: "event", ID: q.id})
+		}
+	}
+	c.Block = len(c.Steps)
+	for i := 0; i < n; i++ {
+		for _, q := range reqs {
+			c.Steps = append(c.Steps, mStep{K: "child", I: i, M: c09Reply(r, &c09Req{count: q.count, id: q.id})})
+		}
+	}
+	return c
+}
+
 func init() {
 	subcmds["c09"] = func(seed uint64, n int, out *common.Out, replay string) {
 		if mergeWorkerMode() {
@@ -500,6 +531,10 @@ func init() {
 			cases = append(cases, c09CloseInterleavings()...)
 			cases = append(cases, c09TwoSessions()...)
 			cases = append(cases, c09JoinedTwins()...)
+			late := root.Fork(1 << 43)
+			for i := 0; i < 6; i++ {
+				cases = append(cases, c09LateReader(late.Fork(uint64(i))))
+			}
 			if n >= mergeExhaustiveFrom {
 				cases = append(cases, c09Exhaustive()...)
 			}
